@@ -66,6 +66,10 @@ class FieldData:
     elif self.virtual:
       raise gfapy.RuntimeError("Virtual lines do not have tags")
     elif (self.vlevel == 0) or self._is_valid_custom_tagname(fieldname):
+      if hasattr(self.__class__, fieldname):
+        raise gfapy.FormatError(
+          "{} is an attribute of the line ".format(repr(fieldname))+
+          "and cannot be used as tag name")
       self._define_field_methods(fieldname)
       if self._datatype.get(fieldname, None) is not None:
         return self._set_existing_field(fieldname, value)
